@@ -99,18 +99,12 @@ def signatures(line):
         c = str_content(line)
         if "\\" in c or "\r" in c:
             sig.append("C04-F2")
-        if "`" in c or "${" in c:
-            sig.append("C04-F3")
-        if any(ord(ch) > 127 for ch in c):
-            sig.append("C04-F4")
     if t[0] == "vec":
         ops = vec_ops(line)
         ff = vec_first_failure(ops)
         live = ops if ff is None else ops[:ff]
         if any(o in ("push", "set") and not (-2 ** 30 <= a[-1] < 2 ** 30) for o, a in live):
             sig.append("C04-F5")
-        if ff is not None:
-            sig.append("C04-F6")
     if t[0] == "veq":
         vals = [int(x) for part in t[1:3] if part != "-" for x in part.split(",")]
         if any(not (-2 ** 30 <= v < 2 ** 30) for v in vals):
@@ -257,19 +251,13 @@ def gen_bin(rng, steer=True):
     return line
 
 
-PLAIN = "abcxyzABZ019 _-+*/=<>()[]{}.,;:!?#%&|~^'$"
+PLAIN = "abcxyzABZ019 _-+*/=<>()[]{}.,;:!?#%&|~^'$`"
 ESC = ["\\n", "\\t", "\\\\", "\\r", "\\0", "\\b", "\\f", "\\v"]
 NONASCII = ["é", "ß", "日", "本", "𝔸", "€", " ", "ÿ"]
 
 
 def gen_plain_text(rng, n):
-    out = ""
-    for _ in range(n):
-        c = rng.pick(PLAIN)
-        if out.endswith("$") and c == "{":
-            c = "}"
-        out += c
-    return out
+    return "".join(rng.pick(PLAIN) for _ in range(n))
 
 
 def gen_str(rng, flavour):
@@ -277,15 +265,12 @@ def gen_str(rng, flavour):
     if flavour == "plain":
         s = ""
         for _ in range(n):
-            s += '\\"' if rng.chance(1, 8) else gen_plain_text(rng, 1)
-            if s.endswith("${"):
-                s = s[:-1] + "}"
+            s += '\\"' if rng.chance(1, 8) else (rng.pick(NONASCII + ["${", "${1}", "`"]) if rng.chance(1, 7) else gen_plain_text(rng, 1))
         return "str " + hexs(s)
     parts = [gen_plain_text(rng, 1) for _ in range(n)]
     k = rng.range(1, 3)
     for _ in range(k):
-        ins = {"escape": lambda: rng.pick(ESC), "cr": lambda: "\r", "backtick": lambda: rng.pick(["`", "${", "${1}", "`+`"]),
-               "nonascii": lambda: rng.pick(NONASCII),
+        ins = {"escape": lambda: rng.pick(ESC + ["\\\\`", "\\\\${", "\\n" + rng.pick(NONASCII)]), "cr": lambda: "\r",
                "malformed": lambda: rng.pick(["\\q", "\\x41", "\\u0041", "\\", "\"", "\\1", "\\'", "\n"])}[flavour]()
         parts.insert(rng.below(len(parts) + 1), ins)
     if flavour == "escape" and rng.chance(1, 6):
@@ -300,7 +285,7 @@ def gen_i2s(rng):
 def gen_s2i(rng, valid=True):
     if valid:
         return "s2i " + hexs(str(gen_int(rng)))
-    return "!s2i " + hexs(rng.pick([" 42", "+5", "12abc", "", "-", "abc", "99999999999", "-0", "007", "4 2", "2147483648",
+    return "s2i " + hexs(rng.pick([" 42", "+5", "12abc", "", "-", "abc", "99999999999", "-0", "007", "4 2", "2147483648",
                                     "-2147483649", "1.5", "0x10", "  -3 "]))
 
 
@@ -418,7 +403,7 @@ def gen_stream(rng, n_bulk):
         elif k == "seq":
             lines.append(gen_seq(rng))
         else:
-            lines.append(gen_vec(rng, "ok"))
+            lines.append(gen_vec(rng, rng.pick(["ok", "ok", "fail"])))
     return lines
 
 
@@ -437,18 +422,15 @@ def gen_probes(rng, per):
                 a, b = -7, 2
         out.append(("C04-F1", f"bin DIV {a} {b}"))
         out.append(("C04-F2", gen_str(rng, rng.pick(["escape", "escape", "cr"]))))
-        out.append(("C04-F3", gen_str(rng, "backtick")))
-        out.append(("C04-F4", gen_str(rng, "nonascii")))
         out.append(("C04-F5", gen_vec(rng, "i31")))
         out.append(("C04-F5", gen_veq(rng, big=True)))
-        out.append(("C04-F6", gen_vec(rng, "fail")))
         out.append((None, gen_str(rng, "malformed")))
     return out
 
 
 FIXED_PROBES = [("C04-F1", "bin DIV -7 2"), ("C04-F1", "bin DIV 7 -2"), ("C04-F2", "!str " + hexs("a\\nb")),
-                ("C04-F3", "!str " + hexs("a`b")), ("C04-F3", "!str " + hexs("a${1}b")), ("C04-F4", "!str " + hexs("é")),
-                ("C04-F5", "vec push:2000000000 get:0"), ("C04-F6", "vec pop"), ("C04-F6", "vec push:1 get:1")]
+                ("C04-F2", "!str " + hexs("a\rb")), ("C04-F5", "vec push:2000000000 get:0"),
+                ("C04-F5", "veq 1073741824 -1073741824")]
 
 
 # ------------------------------------------------------------------ running / classification
@@ -980,8 +962,8 @@ def run(ctx):
         "partial_theorems": {
             "bin_agree_partial": "DIV: a % b = 0 or operands of equal sign (exact by div_agree_iff); SHR: 0 <= a",
             "i31_roundtrip_partial": "-2^30 <= n < 2^30 (exact by i31_roundtrip_iff)",
-            "strconst_agree_partial": "ASCII content without backslash, back quote, CR, `${`, `\"`, LF",
-            "vec_agree_partial": "all stored ints in i31 range and no failing call"},
+            "strconst_agree_partial": "literal whose only escape is \\\" and without raw CR (any Unicode, back quotes, ${ allowed); content form: no backslash, no CR",
+            "vec_agree_partial / vec_eq_agree_partial": "all stored ints in i31 range (failing calls included)"},
         "pending": PENDING})
     ctx.assumptions += [
         "V8: for |a|,|b| < 2^31 Math.floor(a / b) on doubles equals the floor of the rational quotient; products compared only below 2^53; -0 prints and compares like 0",
@@ -996,8 +978,8 @@ def run(ctx):
 
 
 MAX_REPORTS = 4
-PENDING = ["toInt_fromInt (wasmToInt (wasmFromInt n) = some n and tsToInt (tsFromInt n) = some n): stated in Props/C04b.lean as a comment, not proved yet; Str.toInt is tied by the s2i correspondence only",
-           "strconst iff-characterisation over all lexer-accepted literals (escape \\\" inside otherwise plain text is covered by strconst_agree_content, not by the raw-literal corollary)"]
+PENDING = ["strconst iff-characterisation over all lexer-accepted literals (exactly which escape sequences disagree)",
+           "Vec of reference elements (Vec<Str>, Vec<Vec<int>>): element identity is only exercised by tests.AllTests, not modelled"]
 
 
 def replay(ctx, path):
